@@ -46,7 +46,7 @@ WHAT = {
 def gen_cases(v, out):
     """run the harness into a directory emptied of earlier case/stat files. cmd/vfs/main.go strips the
     leading sub-command name before parsing flags, so -out/-n/-seed are honoured in this form."""
-    n = 20 if v.tier == "quick" else 1500
+    n = 12 if v.tier == "quick" else 1500
     os.makedirs(out, exist_ok=True)
     for name in ("cases.txt", "stats.json", "eval.txt"):
         try:
